@@ -50,6 +50,14 @@ func (g *Gen) BaseCfg() Config {
 	return c
 }
 
+// PredefWithFilters: like Predef, and a quarter of the configurations contain a name that is a topic
+// filter (raw-peer gateway checks: what the gateway does with a PUBLISH to such an id).
+func (g *Gen) PredefWithFilters(cids []string) map[string]map[uint16]string {
+	g.filterNames = true
+	defer func() { g.filterNames = false }()
+	return g.Predef(cids)
+}
+
 // Predef draws a predefined-topic configuration with client-specific / "*" overlaps.
 func (g *Gen) Predef(cids []string) map[string]map[uint16]string {
 	m := map[string]map[uint16]string{}
@@ -57,7 +65,7 @@ func (g *Gen) Predef(cids []string) map[string]map[uint16]string {
 		return m
 	}
 	names := []string{"pre/1", "pre/2", "pre/3", "pre/x/y"}
-	if g.Bool(0.25) {
+	if g.filterNames && g.Bool(0.25) {
 		// a predefined name may be a filter (fine for SUBSCRIBE) — it is no topic name for a PUBLISH
 		names[g.Intn(4)] = []string{"pre/+/w", "pre/#", "+"}[g.Intn(3)]
 	}
@@ -162,6 +170,7 @@ type sessGen struct {
 	nreg   int
 	serial int
 	cid    string
+	active bool // (generators that track it) the peer is in the active state
 }
 
 func (sg *sessGen) gap(lo, hi int64) { sg.t += sg.g.Range(lo, hi) }
@@ -356,6 +365,19 @@ func (g *Gen) injects(peer string, n int, from, to int64, tag string) []BrokerIn
 		}
 		out = append(out, BrokerInject{AtMs: g.Range(from, to), Session: peer, Force: true, Topic: topic,
 			Payload: serialPayload(tag, i, extra), QoS: uint8(g.Intn(3)), Retain: g.Bool(0.2)})
+	}
+	if n > 0 && g.Bool(0.3) {
+		// a volley: several messages on different brand-new names within one round trip, mostly QoS 0
+		// (each needs a registration of its own, all in flight together)
+		at := g.Range(from, to)
+		for k := 0; k < int(g.Range(2, 4)); k++ {
+			q := uint8(0)
+			if g.Bool(0.25) {
+				q = uint8(g.Intn(3))
+			}
+			out = append(out, BrokerInject{AtMs: at + g.Range(0, 2), Session: peer, Force: true, Topic: fmt.Sprintf("new/%s/%d", tag, k),
+				Payload: serialPayload(tag+"v", k, int(g.Range(0, 6))), QoS: q})
+		}
 	}
 	return out
 }
